@@ -234,7 +234,10 @@ impl Acc {
 }
 
 const ATTRS_PROBE: &[&str] = &["DEST", "UUID", "T", "S", "xmlns", "SHORT-LABEL", "INDEX", "BASE"];
-const STRS: &[&str] = &["", "a", "Sig", "p1", "1a", "a b", "a/b", "/a/b", "/p1", "/", "//", "\u{fc}x", "a-b", "0", "-1", "0x1F", "1e400", "true", "\u{0}", " ", "&amp;", "<", "AUTOSAR_4-0-1.xsd"];
+const STRS: &[&str] = &["", "a", "Sig", "p1", "1a", "a b", "a/b", "/a/b", "/p1", "/", "//", "\u{fc}x", "a-b", "0", "-1", "0x1F", "1e400", "true", "\u{0}", " ", "&amp;", "<", "AUTOSAR_4-0-1.xsd",
+    // names whose numeric suffix does not fit u64 / is at the boundary (Element::cmp decomposes names into (base, index))
+    "Frame_18446744073709551616", "Frame_18446744073709551615", "Frame_99999999999999999999999", "Frame_2", "Frame_02", "18446744073709551616",
+    "Ma\u{df}18446744073709551616"];
 
 fn q_elem(ex: &Exec, k: usize) -> Out {
     let Some(e) = ex.handles.get(k).cloned() else { return Out::Bad("handle".into()) };
@@ -567,6 +570,9 @@ const DOCS: &[(&str, &str)] = &[
     // SHORT-NAMEs that end in a multi-byte character, with and without a numeric suffix (kept by a lenient load only): Element::cmp /
     // sort() decompose such names into (prefix, index); siblings of the same kind so that the names are really compared
     ("nonascii", "<AR-PACKAGES><AR-PACKAGE><SHORT-NAME>Ma\u{df}2</SHORT-NAME><ELEMENTS><SYSTEM-SIGNAL><SHORT-NAME>Ma\u{df}10</SHORT-NAME></SYSTEM-SIGNAL><SYSTEM-SIGNAL><SHORT-NAME>Ma\u{df}2</SHORT-NAME></SYSTEM-SIGNAL><SYSTEM-SIGNAL><SHORT-NAME>T\u{fc}r</SHORT-NAME></SYSTEM-SIGNAL><SYSTEM-SIGNAL><SHORT-NAME>Ma\u{df}</SHORT-NAME></SYSTEM-SIGNAL><SYSTEM-SIGNAL><SHORT-NAME>\u{20ac}7</SHORT-NAME></SYSTEM-SIGNAL><SYSTEM-SIGNAL><SHORT-NAME>Gr\u{f6}\u{df}e1</SHORT-NAME></SYSTEM-SIGNAL></ELEMENTS></AR-PACKAGE><AR-PACKAGE><SHORT-NAME>Ma\u{df}10</SHORT-NAME></AR-PACKAGE><AR-PACKAGE><SHORT-NAME>T\u{fc}r</SHORT-NAME></AR-PACKAGE></AR-PACKAGES>"),
+    // valid identifiers (strict loads accept them) whose numeric suffix is at / beyond the u64 boundary, next to ordinary ones:
+    // siblings of the same kind, so that sort() / cmp() compare them
+    ("bignum", "<AR-PACKAGES><AR-PACKAGE><SHORT-NAME>Frame_18446744073709551616</SHORT-NAME><ELEMENTS><SYSTEM-SIGNAL><SHORT-NAME>Frame_18446744073709551616</SHORT-NAME></SYSTEM-SIGNAL><SYSTEM-SIGNAL><SHORT-NAME>Frame_18446744073709551615</SHORT-NAME></SYSTEM-SIGNAL><SYSTEM-SIGNAL><SHORT-NAME>Frame_2</SHORT-NAME></SYSTEM-SIGNAL><SYSTEM-SIGNAL><SHORT-NAME>Frame_99999999999999999999999</SHORT-NAME></SYSTEM-SIGNAL><SYSTEM-SIGNAL><SHORT-NAME>Frame_</SHORT-NAME></SYSTEM-SIGNAL><SYSTEM-SIGNAL><SHORT-NAME>Frame_02</SHORT-NAME></SYSTEM-SIGNAL></ELEMENTS></AR-PACKAGE><AR-PACKAGE><SHORT-NAME>Frame_2</SHORT-NAME></AR-PACKAGE><AR-PACKAGE><SHORT-NAME>Frame_18446744073709551617</SHORT-NAME></AR-PACKAGE></AR-PACKAGES>"),
     ("empty", ""),
 ];
 
